@@ -26,6 +26,7 @@ mod record;
 mod report;
 mod serdelong;
 mod tmoments;
+mod tpairs;
 mod types;
 
 use rayon::prelude::*;
@@ -211,6 +212,13 @@ fn main() {
             let seed: u64 = m.get("seed").and_then(|s| s.parse().ok()).unwrap_or(1);
             let n: usize = m.get("n").and_then(|s| s.parse().ok()).unwrap_or(400);
             tmoments::record_moments(&m["trace"], &m["prop"], seed, n, &mut r);
+            r
+        }
+        ("record", Some("pairs")) => {
+            let mut r = Report::default();
+            let seed: u64 = m.get("seed").and_then(|s| s.parse().ok()).unwrap_or(1);
+            let n: usize = m.get("n").and_then(|s| s.parse().ok()).unwrap_or(300);
+            tpairs::record_pairs(&m["trace"], &m["prop"], seed, n, &mut r);
             r
         }
         ("record", Some("minmax")) => {
